@@ -62,6 +62,15 @@ def shard_text(cases):
         elif c["kind"] == "isexpired":
             e = c["exp"]
             lines.append("CExpired %s %d%%N %s" % (term(e["exp"]), e["as_of"], coq_bool(e["got"])))
+        elif c["kind"] == "endpoint":
+            e = c["ep"]
+            if e.get("mask"):
+                m = e["mask"]
+                lines.append("CMask %s %s %s %s %s" % tuple(coq_bool(m[k]) for k in ("blank", "resolve", "anonymous", "removed", "flag")))
+            else:
+                lines.append("CBlocking %s (Ident 1%%N (Some %d%%N) false) %d%%N [%s] %s" % (
+                    coq_bool(e["style"] == "held"), e["exp"], e["resolve"],
+                    "; ".join("%d%%N" % t for t in e["runs"]), coq_bool(e["last_auth"] == "token")))
         else:
             r = c["res"]
             lines.append("CResolve %s %s %s %s %s %s %s" % (
@@ -154,6 +163,9 @@ def run(ctx):
     nontrivial = 0
     skipped_ambiguous = 0
     arrangements = collections.defaultdict(set)
+    endpoint_runs = collections.Counter()
+    oracle_only = 0
+    variants = collections.Counter()
     for line in open(out):
         c = json.loads(line)
         kinds[c["kind"]] += 1
@@ -162,10 +174,16 @@ def run(ctx):
         if c["kind"] == "filter":
             per_type[c["type"]] += 1
             modes[c["mode"]] += 1
+            o_ = c.get("opt") or {}
+            variants["flag-on-entry" if o_.get("flag0") else "flag-clear-or-random"] += 1
+            if o_.get("peers"):
+                variants["peers-in-arrangement"] += 1
+            if o_.get("twice"):
+                variants["same-object-filtered-twice"] += 1
             sizes[c.get("n", 0)] += 1
             if c.get("panic"):
                 continue
-            if c["mode"] == "exh":
+            if c["mode"] == "exh" and not (c.get("opt") or {}).get("twice"):
                 arrangements[c["type"]].add((c.get("n", 0), c.get("mask", 0)))
             a_in, a_out = c["in"]["a"], c["out"]["a"]
             if a_in != a_out:
@@ -182,6 +200,15 @@ def run(ctx):
             cache_states[("cached-" + ("fresh" if r["fresh"] else "stale")) if r["cache_in"] else "uncached"] += 1
             if r["out"]["c"] != "OManageAll":
                 nontrivial += 1
+        elif c["kind"] == "endpoint":
+            e = c["ep"]
+            endpoint_runs["%s/%s%s" % (e["endpoint"], e["scenario"], "/inconclusive" if c.get("mode") == "inconclusive" else "")] += 1
+            if c.get("mode") == "inconclusive":
+                continue
+            nontrivial += 1
+            if not (e.get("mask") or e.get("last_auth")):
+                oracle_only += 1
+                continue          # judged by the oracle only; no model counterpart
         else:
             nontrivial += 1
         cases.append(c)
@@ -218,20 +245,29 @@ def run(ctx):
         r = strip(c)
         r["signature"] = json.loads(key)
         ctx.violation(r)
-    mism_unexplained = [c for c in mism if not c["oracle"]]
-    if mism_unexplained and not new_fail:
-        c = mism_unexplained[0]
+    # model mismatches are ALWAYS reported, whatever the oracle said about the same or other cases
+    if mism:
+        c = ([x for x in mism if not x["oracle"]] or mism)[0]
         what = {"filter": "Run.C09.check: filter_response (model of Filter.Filter) = implementation, type %s" % c.get("type"),
                 "resolve": "Run.C09.check: resolve_token (model of ACLResolver.ResolveToken) = implementation",
-                "isexpired": "Run.C09.check: is_expired = ACLToken.IsExpired"}[c["kind"]]
-        ctx.violation({"kind": "correspondence", "theorem": what, "mismatching_cases": len(mism_unexplained),
-                       "by_type": dict(collections.Counter(x.get("type", x["kind"]) for x in mism_unexplained)),
-                       "first": strip(c)}, found_input=False)
+                "isexpired": "Run.C09.check: is_expired = ACLToken.IsExpired",
+                "endpoint": "Run.C09.check: blocking_held / blocking_reresolve / mask_flag = the real endpoint"}[c["kind"]]
+        ctx.violation({"kind": "correspondence", "theorem": what, "mismatching_cases": len(mism),
+                       "of_which_with_oracle_failure": sum(1 for x in mism if x["oracle"]),
+                       "by_type": dict(collections.Counter(x.get("type", x["kind"]) for x in mism)),
+                       "first": strip(c)}, found_input=bool(c["oracle"]))
 
-    exhaustive_ok = all((n, m) in arrangements[t] for t in per_type for n in range(6) for m in range(1 << n)
-                        if t not in NO_ARRANGEMENT)
+    missing = [(t, n, m) for t in per_type for n in range(6) for m in range(1 << n)
+               if t not in NO_ARRANGEMENT and (n, m) not in arrangements[t]]
+    exhaustive_ok = not missing
+    if missing:
+        ctx.violation({"kind": "generator-coverage", "what": "not every readable/unreadable arrangement of 0..5 elements was run for every type",
+                       "missing_first": missing[:10], "missing": len(missing)}, found_input=False)
+    inconclusive = sum(v for k, v in endpoint_runs.items() if k.endswith("/inconclusive"))
+    if inconclusive:
+        ctx.notes.append("%d endpoint scenario(s) inconclusive (the machine stalled past the timing margins twice)" % inconclusive)
     samples = []
-    for c in cases[:2] + [x for x in cases if x["kind"] == "filter" and x["mode"] == "rand"][:2] + [x for x in cases if x["kind"] == "resolve"][:2]:
+    for c in cases[:2] + [x for x in cases if x["kind"] == "filter" and x["mode"] == "rand"][:2] + [x for x in cases if x["kind"] == "resolve"][:2] + [x for x in cases if x["kind"] == "endpoint"][:2]:
         samples.append(strip(c) if c["kind"] != "filter" else {"type": c["type"], "mode": c["mode"], "in": term(c["in"])[:400], "out": term(c["out"])[:400]})
     cov.update({
         "evaluations": len(cases),
@@ -254,6 +290,9 @@ def run(ctx):
         "resolve_outcomes": dict(outcomes),
         "resolve_cache_states": dict(cache_states),
         "resolve_skipped_ambiguous_window": skipped_ambiguous,
+        "endpoint_scenarios": dict(endpoint_runs),
+        "endpoint_cases_oracle_only": oracle_only,
+        "case_variants": dict(variants),
         "input_distribution": "per type: every readable/unreadable arrangement of 0..5 elements under two fixed policies (default deny + prefix read + 'bad' denied; default allow + 'bad' denied), map-iterating branches repeated 4x; nested arrangements for node dumps; random policies (0-3 exact/prefix rules per resource, read/write/deny, acl read/write/deny, default allow 1/3) with 0..6 elements over a 20-name universe, peers 20 %, initial flag set 20 %; malformed stream (nil list entries, nil NodeServices / Node, empty names). Resolver: 3-8 calls per resolver, 4 down policies, TTL fresh/stale, backend done/not done, RPC token/other-dc/nil/not-found/failure, policy-resolution outcomes, expirations none/zero/+1h/+10s/-1h/-1s/-1ms, tokens expiring while cached",
         "samples": samples,
         "exhaustive": False,
